@@ -248,7 +248,7 @@ static void randomScenario(uint64_t seed, int nops, int scenario, unsigned kinds
 
 static void onSignal(int sig) {
 	char t[64];
-	int n = std::snprintf(t, sizeof t, "\n{\"e\":\"crash\",\"i\":%d,\"sig\":%d}\n", g_curId, sig);
+	int n = std::snprintf(t, sizeof t, "\n{\"e\":\"crash\",\"i\":%d,\"sig\":%d,\"pay\":%d}\n", g_curId, sig, VH_PAY);
 	g_rec.flush();
 	if (n > 0) { ssize_t w = ::write(g_rec.fd, t, static_cast<size_t>(n)); (void) w; }
 	_exit(0);
